@@ -26,7 +26,10 @@ for line in sys.stdin:
         continue
     req = json.loads(line)
     try:
-        bf = Assembler().assemble(req["src"])
+        asm = Assembler()
+        if req.get("bases"):
+            asm.SECTION_BASE_ADDRESSES = dict(req["bases"])
+        bf = asm.assemble(req["src"])
         segs = [[int(s.address), list(bytes(s.data))] for s in bf.segments]
         out = {"ok": True, "segs": segs}
     except AssemblerError as e:
@@ -50,10 +53,10 @@ class AsmRef:
                                      stderr=subprocess.DEVNULL, env=env, bufsize=0)
         self._buf = b""
 
-    def assemble(self, src: str) -> Dict[str, Any]:
+    def assemble(self, src: str, bases: Optional[Dict[str, int]] = None) -> Dict[str, Any]:
         if self.proc is None or self.proc.poll() is not None:
             self._start()
-        self.proc.stdin.write(json.dumps({"src": src}).encode() + b"\n")
+        self.proc.stdin.write(json.dumps({"src": src, "bases": bases}).encode() + b"\n")
         self.proc.stdin.flush()
         fd = self.proc.stdout.fileno()
         while b"\n" not in self._buf:
